@@ -1,21 +1,28 @@
 PROP = "C17"
 LEVEL = "proof"
-CONTRACT_MODULES = ["linear_fit", "menger"]
+CONTRACT_MODULES = ["linear_fit", "menger", "knee_ranking"]
 DEDUCTIVE = [
     ("linear_fit", "kneeliverse.linear_fit.shortest_distance_points#def"),
     ("linear_fit", "kneeliverse.linear_fit.perpendicular_distance_points#def"),
     ("linear_fit", "kneeliverse.linear_fit.perpendicular_distance_index#def"),
     ("menger", "kneeliverse.menger.menger_curvature"),
     ("menger", "lemma:menger_symmetric"),
+    ("knee_ranking", "kneeliverse.knee_ranking.rect"),
+    ("knee_ranking", "kneeliverse.knee_ranking.rect_overlap"),
+    ("knee_ranking", "lemma:rect_overlap_symmetric"),
+    ("knee_ranking", "kneeliverse.knee_ranking.rank"),
 ]
 EXPLANATION = ("Mode R (doubles as reals), division- and root-free postconditions: shortest_distance_points returns for every point the distance to "
                "the closed segment a-b (three clamp regions via W=(p-a).(b-a); to the point a when a=b); perpendicular_distance_points the distance "
                "to the infinite line (r>=0, r^2|b-a|^2 = cross^2); perpendicular_distance_index exactly the distances of the sub-range; Menger "
                "curvature the reciprocal circumradius (k>=0, k^2 a^2b^2c^2 = 4 cross^2), zero iff collinear, and symmetric (lemma over the "
                "contract). The proofs use auto-active hints at the return point, named specification functions and nlsat on a polynomial "
-               "abstraction. rect_overlap, rect, rank, distances, triangle_area: bounded layer only (exact rational oracle).")
+               "abstraction. rect_overlap is proved to be the intersection over union of its "
+               "(rect-ordered) arguments, in [0,1], 0 on disjoint and 1 on identical non-degenerate rectangles, symmetric (lemma); rect returns the "
+               "min/max corners; rank returns a permutation of 0..n-1 that orders the values (argsort contract + fancy-store model). "
+               "distances, triangle_area: bounded layer only.")
 ASSUMPTIONS = ["mode R; sqrt axiomatised by r>=0 and r*r=x; np.linalg.norm / np.dot / np.hypot / np.maximum.reduce / np.divide / np.fabs contracts assumed"]
 LEVEL_TEXT = ("Proof (A-REAL) of the distance primitives and Menger curvature against their geometric definitions for all finite inputs incl. "
-              "degenerate segments; bounded exact-rational layer for rectangle overlap and rank.")
-LEVEL_NOTE = "A-REAL; NumPy entry points assumed by contract (trusted_base); rect_overlap / rank / rect bounded only."
+              "degenerate segments; rectangle overlap and rank included; bounded exact-rational layer as cross-check.")
+LEVEL_NOTE = "A-REAL; NumPy entry points assumed by contract (trusted_base: norm, dot, hypot, maximum.reduce, divide, fabs, abs, argsort, arange, empty_like)."
 TECHNIQUE = "contract-based deductive verification (AST->VC, z3 incl. nlsat on polynomial abstractions, hints); bounded exact-rational run-time layer as labelled stand-in"
